@@ -168,11 +168,27 @@ class MapV:
     """HashMap / HashSet / BTreeMap: ordered entries (key, present, value).
     present is True or a z3 Bool.  Keys of present entries are pairwise distinct (an invariant the
     constructor of a symbolic state must assert).  Entries that are definitely absent are dropped."""
-    __slots__ = ('e', 'kind')
+    __slots__ = ('e', 'kind', '_idx')
 
     def __init__(self, entries=(), kind='map'):
         self.e = tuple(entries)
         self.kind = kind
+        self._idx = None
+
+    def index(self):
+        """(dict concrete int key -> [entry indices], [indices of entries with symbolic/non-int keys])"""
+        ix = self._idx
+        if ix is None:
+            d = {}
+            sym = []
+            for i, (k, p, v) in enumerate(self.e):
+                if type(k) is Int and type(k.v) is int:
+                    d.setdefault(k.v, []).append(i)
+                else:
+                    sym.append(i)
+            ix = (d, sym)
+            self._idx = ix
+        return ix
 
     def __repr__(self):
         return 'Map%r' % (list(self.e),)
